@@ -60,4 +60,12 @@ theorem flexMFScorerCall_eq (φ) (num : Nat → Option Nat) (tbl : Nat → Optio
     flexMFScorerCall num tbl wrap L = scoreList num tbl L := by
   rw [scoreList_eq_map]; simp only [flexMFScorerCall]; rw [steps_eq_map, withScores_map]
 
+/-- the `implicit` bridge (`BaseRec`): whichever order of evaluation the data-dependent test `mult_first` selects — multiply the whole
+    embedding matrix and pick the wanted rows, or pick the rows and multiply — the result is the per-item map -/
+theorem implicitScorerCall_eq (φ) (num : Nat → Option Nat) (tbl : Nat → Option Rat) (wrap : Option Rat) (L : List (Item φ)) :
+    implicitScorerCallMultFirst num tbl wrap L = scoreList num tbl L ∧ implicitScorerCallGatherFirst num tbl wrap L = scoreList num tbl L := by
+  constructor
+  · rw [scoreList_eq_map]; simp only [implicitScorerCallMultFirst]; rw [steps_eq_map, withScores_map]
+  · rw [scoreList_eq_map]; simp only [implicitScorerCallGatherFirst]; rw [steps_eq_map, withScores_map]
+
 end LK.ArrayOps
